@@ -57,7 +57,8 @@ def check(F, rep):
     conv_callers = call_sites(F, CONV, crates=["iroh_dns_server"])
     rep.floor("who_calls", "callers of the record converter", len(conv_callers), 1)
     # ---- the converter's filter
-    c = get_fn(F, rep, CONV)
+    from ..inline import inlined
+    c = inlined(F, get_fn(F, rep, CONV))       # the zone-membership test may live in a helper
     du = defuse(c)
     entry = find_calls(c, regex=r"BTreeMap::entry$")
     rep.exact("filter", "output.entry(..) calls in the converter", len(entry), 1)
@@ -101,3 +102,115 @@ def check(F, rep):
             ok = eb not in reachable_fs(c, 0, removed_edges=other_edge) and nvals == 2
         rep.ob("filter", ok, site(c, eb), "records of the two excluded types (SOA, NS: %d explicit values tested) never reach the insertion" % nvals, skey(F, c, "soa-ns-excluded"))
     # who writes the tables -> C39
+    query_key_label(F, rep)
+
+
+def query_key_label(F, rep):
+    """Query side: the zone key of a query name is the label directly below the origin."""
+    PN = "iroh_dns_server::dns::node_zone_handler::parse_name_as_pkarr_with_origin"
+    rep.clause("query side: the key under which a query is answered is decoded from exactly the label directly below the matched origin (`rev().skip(origin.num_labels()).next()` or `take(name.num_labels() - origin.num_labels()).next_back()`), never from a label found by searching")
+    fs = F.fns_named(PN)
+    if len(fs) != 1:
+        rep.missing("query-key", PN)
+        return
+    f = rep.fn(fs[0])
+    z = find_calls(f, regex=r"PublicKeyBytes::from_z32$")
+    rep.exact("query-key", "from_z32 calls in parse_name_as_pkarr_with_origin", len(z), 1)
+    if not z:
+        return
+    zb, zt = z[0]
+    TR = ("core::str::converts::from_utf8", "n0_error::StdResultExt::anyerr", "core::option::Option::expect", "core::result::Result::expect", "core::option::Option::unwrap", "core::result::Result::unwrap")
+    src = copy_sources(f, op_base(zt["args"][0]), transparent=TR)
+    shape, why = False, "label source %s" % sorted(map(str, src))
+    # which call produced the label
+    prod = None
+    l = op_base(zt["args"][0])
+    for _ in range(12):
+        dc = def_call(f, l) if l is not None else None
+        if dc is None:
+            # through `?` plumbing / payload copies
+            nxt = None
+            for b, i, st in f.stmts():
+                if st["k"] == "a" and st["lhs"] == {"l": l} and st["rv"]["k"] in ("use", "cast") and st["rv"]["o"]["k"] in ("copy", "move"):
+                    nxt = st["rv"]["o"]["p"]["l"]
+                elif st["k"] == "a" and st["lhs"] == {"l": l} and st["rv"]["k"] == "ref":
+                    nxt = st["rv"]["p"]["l"]
+            if nxt is None:
+                break
+            l = nxt
+            continue
+        if call_matches(dc[1], r"Iterator::next$|DoubleEndedIterator::next_back$"):
+            prod = dc
+            break
+        if not dc[1]["args"]:
+            break
+        l = op_base(dc[1]["args"][0])
+
+    def num_labels_of(o, which):
+        """operand is `<which>.num_labels()` (possibly cast)"""
+        ll = op_base(o)
+        for _ in range(4):
+            d2 = def_call(f, ll) if ll is not None else None
+            if d2 is not None:
+                if not call_matches(d2[1], r"Name::num_labels$"):
+                    return False
+                x = copy_sources(f, op_base(d2[1]["args"][0]), transparent=("core::convert::Into::into", "core::convert::From::from"))
+                if which == "origin":
+                    return bool(x) and all(y[0] == "call" and y[1].endswith("Iterator::next") for y in x)
+                return bool(x) and all(y[0] == "arg" and y[1] == 1 for y in x) or bool(x) and all(y[0] == "call" and re.search(r"Into::into$|From::from$", y[1]) for y in x)
+            nxt = None
+            for b, i, st in f.stmts():
+                if st["k"] == "a" and st["lhs"] == {"l": ll} and st["rv"]["k"] in ("use", "cast") and st["rv"]["o"]["k"] in ("copy", "move"):
+                    nxt = st["rv"]["o"]["p"]["l"]
+            if nxt is None:
+                return False
+            ll = nxt
+        return False
+    if prod is not None:
+        pb, pt = prod
+        recv = op_base(pt["args"][0])
+        # the adapter the label is taken from
+        chain = []
+        cur = recv
+        for _ in range(8):
+            d2 = def_call(f, cur) if cur is not None else None
+            if d2 is None:
+                nxt = None
+                for b, i, st in f.stmts():
+                    if st["k"] == "a" and st["lhs"] == {"l": cur}:
+                        rv = st["rv"]
+                        if rv["k"] == "use" and rv["o"]["k"] in ("copy", "move") and not rv["o"]["p"].get("p"):
+                            nxt = rv["o"]["p"]["l"]
+                        elif rv["k"] == "ref" and all(e[0] == "deref" for e in rv["p"].get("p", [])):
+                            nxt = rv["p"]["l"]
+                if nxt is None:
+                    break
+                cur = nxt
+                continue
+            chain.append(d2[1])
+            cur = op_base(d2[1]["args"][0]) if d2[1]["args"] else None
+        names = [callee_names(t)[0].rsplit("::", 1)[-1] for t in chain]
+        is_next = callee_names(pt)[0].endswith("::next")
+        if is_next and names[:3] == ["skip", "rev", "iter"]:
+            shape = num_labels_of(chain[0]["args"][1], "origin")
+            why = "rev().skip(origin.num_labels()).next(): skip count is the origin's label count: %s" % shape
+        elif not is_next and names[:2] == ["take", "iter"]:
+            cnt = op_base(chain[0]["args"][1])
+            subs = []
+            ll = cnt
+            for _ in range(4):
+                defs = [st["rv"] for b, i, st in f.stmts() if st["k"] == "a" and st["lhs"] == {"l": ll}]
+                if len(defs) == 1 and defs[0]["k"] == "bin" and defs[0]["op"] in ("Sub", "SubWithOverflow"):
+                    subs = [defs[0]]
+                    break
+                if len(defs) == 1 and defs[0]["k"] in ("use", "cast") and defs[0]["o"]["k"] in ("copy", "move"):
+                    ll = defs[0]["o"]["p"]["l"]
+                    continue
+                break
+            shape = bool(subs) and num_labels_of(subs[0]["a"], "name") and num_labels_of(subs[0]["b"], "origin")
+            why = "take(name.num_labels() - origin.num_labels()).next_back(): %s" % shape
+        else:
+            why = "label taken by %s from adapter chain %s" % (callee_names(pt)[0].rsplit("::", 1)[-1], names[:4])
+        # not inside a search loop over the labels: the producing call is executed at most once per origin
+        inner_loop = pb in f.reachable(pt["t"], removed_blocks=set()) and any(call_matches(t2, r"Iterator::next$") and b2 != pb and pb in f.reachable(b2) and b2 in f.reachable(pb) and not any(True for _ in ()) for b2, t2 in f.calls() if False)
+    rep.ob("query-key", shape, site(f, zb), "the public-key label is the one directly below the origin: %s" % why, skey(F, f, "key-label-position"))
